@@ -54,6 +54,14 @@ TrAdd == /\ Is("add") /\ Ev.r = "ok"
          /\ SnapOK(boxes')
          /\ Mark
 
+(* a delivery during which the disk refused to take more than Ev.limit bytes per file: either it is  *)
+(* refused and leaves nothing, or it is stored - then whole, like any other (a truncated body     *)
+(* behind an acknowledged delivery is neither)                                                    *)
+TrAddFault == /\ Is("addfault")
+              /\ \/ Ev.r # "ok" /\ UNCHANGED svars /\ SnapOK(boxes)
+                 \/ Ev.r = "ok" /\ Add(Ev.mb, Ev.id, Ev.meta, Ev.size) /\ SnapOK(boxes')
+              /\ Mark
+
 TrSeen == /\ Is("seen") /\ Ev.r = ByIdRes(Ev.mb, Ev.id)
           /\ MarkSeen(Ev.mb, Ev.id)
           /\ SnapOK(boxes')
@@ -172,7 +180,7 @@ TrSites == /\ Is("sites")
 (* C10: every following operation runs in a newly started process *)
 TrRestart == /\ Is("restart") /\ Restart /\ SnapOK(boxes) /\ Mark
 
-TraceNext == \/ TrDelivered \/ TrSites \/ TrRestart \/ TrCrash \/ TrEvents \/ TrReset \/ TrAdd \/ TrSeen \/ TrRemove \/ TrPurge \/ TrScan
+TraceNext == \/ TrAddFault \/ TrDelivered \/ TrSites \/ TrRestart \/ TrCrash \/ TrEvents \/ TrReset \/ TrAdd \/ TrSeen \/ TrRemove \/ TrPurge \/ TrScan
              \/ TrGet \/ TrLatest \/ TrList \/ TrVisit \/ TrReopen \/ TrProbe
 
 TraceSpec == TraceInit /\ [][TraceNext]_tvars
